@@ -233,10 +233,13 @@ type Item struct {
 	Body   []*Stmt
 }
 
+// Native: an entry of ParserConfig.Funcs. NotFunc "" = a Go function with In
+// parameters; otherwise the value is not a function: "nil", "int", "string", "slice".
 type Native struct {
 	Name     string
 	In       int
 	Variadic bool
+	NotFunc  string
 }
 
 type Prog struct {
@@ -352,7 +355,11 @@ func (p *Prog) Wire() string {
 		if n.Variadic {
 			v = 1
 		}
-		fmt.Fprintf(&sb, " %s %d %d", hx.HexS(n.Name), n.In, v)
+		isFunc := 1
+		if n.NotFunc != "" {
+			isFunc = 0
+		}
+		fmt.Fprintf(&sb, " %s %d %d %d", hx.HexS(n.Name), n.In, v, isFunc)
 	}
 	fs := p.funcs()
 	fmt.Fprintf(&sb, " F %d", len(fs))
